@@ -860,7 +860,7 @@ type dscSpec struct {
 var dscKeys = []string{"A", "Title"}
 var dscColons = []string{":", ": ", ":\t", ":  "}
 var dscValues = []string{"x", "x y", "(a) %b", "v:w 1"}
-var dscConts = []string{"m", "m  n", "%%z"}
+var dscConts = []string{"m", "m  n", "%%z", ""} // (the last: a continuation line with nothing on it)
 var dscContSeps = []string{" ", "", "\t "}
 var dscPositions = []string{"first-line", "after-code-line", "after-plain-comment", "after-blank-line", "inside-procedure", "second-Execute"}
 
@@ -1221,7 +1221,7 @@ func octalFamily(budget time.Duration) mc.Family {
 // or empty, each ended by LF, CR or CR LF independently, then a final DSC line:
 // every DSC line stands at the start of a line and must be collected, in order.
 func mixedLinesFamily(budget time.Duration) mc.Family {
-	contents := []string{"1", "% plain", "%%K: v", "", "2 %%NotDSC: mid-line"}
+	contents := []string{"1", "% plain", "%%K: v", "", "2 %%NotDSC: mid-line", "%%"}
 	eols := []string{"\n", "\r", "\r\n"}
 	nc, ne := len(contents), len(eols)
 	n := nc * nc * nc * ne * ne * ne
@@ -1254,6 +1254,8 @@ func mixedLinesFamily(budget time.Duration) mc.Family {
 					sb.WriteString(eols[ei%ne])
 					ei /= ne
 					switch {
+					case ct == "%%":
+						// a line of two percent signs names no key: nothing is recorded, and the next line is a line start
 					case strings.HasPrefix(ct, "%%"):
 						want = append(want, pstoken.DSC{Key: "K", Value: "v"})
 					case ct == "1" || strings.HasPrefix(ct, "2"):
